@@ -37,10 +37,10 @@ META = {
         "isinstance(..., document|section) test. R2: in render_table the tgroup `cols`, the number of colspec nodes and the "
         "rendered header row derive from one length expression; render_table_row attaches exactly one entry per cell token "
         "on every path; (thorough) markdown-it pads body rows to the header width. R3: every refid store takes its value "
-        "from a found registry lookup / docutils set_id, or every path to it passes an XREF_MISSING warning (docutils node "
+        "from a found registry lookup / docutils set_id (a value of document.nameids, which docutils sets to None for a name defined twice, only under a not-None test), or every path to it passes an XREF_MISSING warning (docutils node "
         "truthiness read from docutils' source). R4: a manually numbered footnote gets its label as first child, an auto "
         "footnote is registered with note_autofootnote instead (docutils inserts the label at index 0), never both; all "
-        "registry calls are dominated by the not-a-duplicate test. R5: existing nodes are re-attached only after being "
+        "registry calls are dominated by a not-a-duplicate test (document.nameids, or the footnote registries the call registers into; any(...) / loop / one-return helper forms); document.footnotes/autofootnotes/symbol_footnotes are only reordered by MyST code, never filtered or truncated. R5: a message node that create_warning(append_to=) already attached is not attached again by the function or by a caller that attaches the returned collection; existing nodes are re-attached only after being "
         "detached, exactly once; children moved out of a node are moved at most once per path and their old owner is "
         "discarded on every path. R6: the first child a new section can receive, on every path, is its title."
     ),
@@ -966,10 +966,171 @@ def r6_section_title_first(corpus: Corpus, rep: Report, tier: str):
 # ---------------------------------------------------------------------------
 # R4 footnote shape
 
+FOOTNOTE_REGISTRIES = ("footnotes", "autofootnotes", "symbol_footnotes")
+
+
+def _dup_test(t: ast.expr, pol: bool, names_src: list[str], needed: set[str], fi: FunctionInfo | None = None, depth: int = 0) -> tuple[str, str]:
+    """Is (t, pol) the fact "no footnote with this name is registered yet"?  ('ok'|'weak'|'unknown'|'none', why).
+    Accepted forms: `name in document.nameids` (flat name registry) and
+    `any(name in fn["names"] [+ fn["dupnames"]] for fn in document.<registry> + ...)` covering ``needed``."""
+    if isinstance(t, ast.Compare) and len(t.ops) == 1 and isinstance(t.ops[0], (ast.In, ast.NotIn)) and unparse(t.left) in names_src and unparse(t.comparators[0]).endswith(".nameids"):
+        return ("ok", "name not in document.nameids") if pol == isinstance(t.ops[0], ast.NotIn) else ("none", "")
+    if isinstance(t, ast.Call) and dotted(t.func) in ("any", "all") and len(t.args) == 1 and isinstance(t.args[0], (ast.GeneratorExp, ast.ListComp)) and any(nm in unparse(t) for nm in names_src):
+        ge = t.args[0]
+        if dotted(t.func) != "any" or len(ge.generators) != 1:
+            return "unknown", f"`{short(t, 60)}`"
+        if pol:
+            return "none", ""
+        gen = ge.generators[0]
+        elt = ge.elt
+        if gen.ifs or not (isinstance(elt, ast.Compare) and len(elt.ops) == 1 and isinstance(elt.ops[0], ast.In) and unparse(elt.left) in names_src and isinstance(gen.target, ast.Name)):
+            return "unknown", f"`{short(t, 60)}`"
+        tgt = gen.target.id
+        looked = {x.slice.value for x in ast.walk(elt.comparators[0]) if isinstance(x, ast.Subscript) and isinstance(x.value, ast.Name) and x.value.id == tgt and isinstance(x.slice, ast.Constant)}
+        if "names" not in looked:
+            return "weak", f"the duplicate test `{short(t, 60)}` does not look at the registered footnotes' names"
+        it = gen.iter
+        hops = 0
+        while isinstance(it, ast.Name) and fi is not None and hops < 3:
+            v = _single_value(fi, it.id)
+            if v is None:
+                return "unknown", f"`{it.id}` (searched by the duplicate test) is not a singly assigned local"
+            it, hops = v, hops + 1
+        regs = {x.attr for x in ast.walk(it) if isinstance(x, ast.Attribute) and x.attr in FOOTNOTE_REGISTRIES}
+        other = [x for x in ast.walk(it) if isinstance(x, (ast.Call, ast.Subscript, ast.IfExp)) and not (isinstance(x, ast.Call) and dotted(x.func) in ("list", "tuple", "chain", "itertools.chain"))]
+        if other:
+            return "unknown", f"`{short(gen.iter, 60)}`"
+        if needed <= regs:
+            return "ok", f"no registered footnote ({', '.join(sorted(regs))}) carries the name"
+        return "weak", f"the duplicate test only searches document.{'/'.join(sorted(regs)) or '?'} but the footnote is registered in document.{'/'.join(sorted(needed - regs))}"
+    if isinstance(t, ast.Call) and fi is not None and depth < 2 and isinstance(t.func, ast.Attribute) and unparse(t.func.value) == "self" and any(unparse(a) in names_src for a in t.args):
+        # `if self._is_duplicate(name): ... return` - a one-return helper is read through
+        hp = _helper_predicate_args(fi, t)
+        if hp is None:
+            return "unknown", f"helper `{short(t, 50)}`"
+        callee, expr, pmap = hp
+        inner_names = [pmap[a] for a in names_src if a in pmap]
+        return _dup_test(expr, pol, inner_names, needed, callee, depth + 1)
+    if any(nm in {n.id for n in ast.walk(t) if isinstance(n, ast.Name)} for nm in names_src) and not pol and isinstance(t, (ast.Call, ast.Compare)) and any(w in unparse(t) for w in ("names", "nameids", "footnote")):
+        return "unknown", f"`{short(t, 60)}`"
+    return "none", ""
+
+
+def _helper_predicate_args(fi: FunctionInfo, call: ast.Call):
+    """(callee, returned expr, {caller arg text -> callee param}) for a one-return ``self.helper(args)``."""
+    c = module_corpus(fi)
+    if c is None or fi.cls is None or not isinstance(call.func, ast.Attribute):
+        return None
+    cands = [m for ci in [fi.cls] + c.subclasses(fi.cls) + c.mro(fi.cls) for m in [ci.methods.get(call.func.attr)] if m is not None]
+    if not cands:
+        return None
+    callee = cands[0]
+    body = [s_ for s_ in callee.node.body if not (isinstance(s_, ast.Expr) and isinstance(s_.value, ast.Constant))]
+    if not (len(body) == 1 and isinstance(body[0], ast.Return) and body[0].value is not None):
+        return None
+    pmap = {}
+    for a in call.args:
+        pn = _param_of(callee, call, a)
+        if pn:
+            pmap[unparse(a)] = pn
+    return callee, body[0].value, pmap
+
+
+def _dup_loop(cfg, st, names_src: list[str], needed: set[str]) -> tuple[str, str]:
+    """Loop form of the duplicate test: `for fn in <registries>: if name in fn["names"]...: ...; return`
+    completed (not left by the return) before ``st`` executes."""
+    for d in cfg.dom().get(st, set()):
+        if not (isinstance(d, tuple) and d[0] == "F" and isinstance(d[1], ast.For) and isinstance(d[1].target, ast.Name)):
+            continue
+        lp = d[1]
+        tgt = lp.target.id
+        for x in ast.walk(lp):
+            if isinstance(x, ast.If) and x.body and isinstance(x.body[-1], (ast.Return, ast.Raise)):
+                for t in ast.walk(x.test):
+                    if isinstance(t, ast.Compare) and len(t.ops) == 1 and isinstance(t.ops[0], ast.In) and unparse(t.left) in names_src:
+                        looked = {y.slice.value for y in ast.walk(t.comparators[0]) if isinstance(y, ast.Subscript) and isinstance(y.value, ast.Name) and y.value.id == tgt and isinstance(y.slice, ast.Constant)}
+                        regs = {y.attr for y in ast.walk(lp.iter) if isinstance(y, ast.Attribute) and y.attr in FOOTNOTE_REGISTRIES}
+                        if "names" in looked and needed <= regs and isinstance(x.test, ast.Compare):
+                            return "ok", f"loop over document.{'/'.join(sorted(regs))} returns on a footnote with the same name"
+                        if "names" in looked and not needed <= regs and isinstance(x.test, ast.Compare):
+                            return "weak", f"the duplicate loop only searches document.{'/'.join(sorted(regs)) or '?'} but the footnote is registered in document.{'/'.join(sorted(needed - regs))}"
+                        return "unknown", f"loop test `{short(x.test, 50)}`"
+    return "none", ""
+
+
+def _registry_writes(corpus: Corpus, rep: Report) -> None:
+    """docutils' Footnotes transform labels exactly the members of document.footnotes / autofootnotes /
+    symbol_footnotes, and CollectFootnotes moves exactly those: MyST code may reorder a registry, never shrink it."""
+
+    def is_reg(e):
+        return isinstance(e, ast.Attribute) and e.attr in FOOTNOTE_REGISTRIES and "document" in unparse(e.value)
+
+    def permutation_of(v: ast.expr, reg_text: str) -> tuple[bool | None, str]:
+        if isinstance(v, ast.Call) and dotted(v.func) in ("sorted", "list", "reversed", "tuple") and v.args:
+            return permutation_of(v.args[0], reg_text)
+        if is_reg(v):
+            return (unparse(v) == reg_text, "" if unparse(v) == reg_text else f"built from {unparse(v)}")
+        if isinstance(v, (ast.ListComp, ast.GeneratorExp)) and len(v.generators) == 1:
+            gen = v.generators[0]
+            if gen.ifs:
+                return False, f"members are filtered by `{short(gen.ifs[0], 40)}`"
+            if unparse(v.elt) != unparse(gen.target):
+                return None, f"`{short(v, 50)}`"
+            return permutation_of(gen.iter, reg_text)
+        if isinstance(v, ast.Subscript) and isinstance(v.slice, ast.Slice):
+            return False, f"only the slice `[{unparse(v.slice)}]` is kept"
+        if isinstance(v, ast.Call) and dotted(v.func) == "filter":
+            return False, "members are filtered"
+        if isinstance(v, ast.BinOp) and isinstance(v.op, ast.Add):
+            a, b = permutation_of(v.left, reg_text), permutation_of(v.right, reg_text)
+            return None, f"`{short(v, 50)}`"
+        if isinstance(v, (ast.List, ast.Tuple)) and not v.elts:
+            return False, "the registry is emptied"
+        return None, f"`{short(v, 50)}`"
+
+    for fi in corpus.all_functions():
+        if fi.is_lambda or fi.module.name.endswith("._docs"):
+            continue
+        for n in fi.local_nodes():
+            verdict = None
+            if isinstance(n, ast.Call) and isinstance(n.func, ast.Attribute) and is_reg(n.func.value):
+                a = n.func.attr
+                if a in ("sort", "reverse"):
+                    verdict = ("ok", "in-place reordering")
+                elif a in ("remove", "pop", "clear"):
+                    verdict = ("bad", f"`.{a}()` takes members out of the registry")
+                elif a in ("append", "extend", "insert", "__setitem__", "__delitem__"):
+                    verdict = ("unknown", f"`.{a}()` on a docutils registry")
+            elif isinstance(n, (ast.Assign, ast.AugAssign)):
+                tgts = n.targets if isinstance(n, ast.Assign) else [n.target]
+                for t in tgts:
+                    base = t.value if isinstance(t, ast.Subscript) and isinstance(t.slice, ast.Slice) and t.slice.lower is None and t.slice.upper is None else t
+                    if is_reg(base) and isinstance(n, ast.Assign):
+                        ok, why = permutation_of(n.value, unparse(base))
+                        verdict = ("ok", "reordered copy of the same registry") if ok else (("bad", why) if ok is False else ("unknown", why))
+                    elif is_reg(base) or (isinstance(t, ast.Subscript) and is_reg(t.value)):
+                        verdict = ("unknown", f"`{short(n, 50)}`")
+            elif isinstance(n, ast.Delete):
+                for t in n.targets:
+                    if (isinstance(t, ast.Subscript) and is_reg(t.value)) or is_reg(t):
+                        verdict = ("bad", "members are deleted from the registry")
+            if verdict is None:
+                continue
+            rep.saw_function(fi.fq)
+            key = f"{fi.fq}|footnote registry keeps every member|{short(n, 70)}"
+            site = fi.module.site(n)
+            if verdict[0] == "ok":
+                rep.ok("C03.R4", key, site, verdict[1])
+            elif verdict[0] == "bad":
+                rep.violation("C03.R4", key, site, f"{verdict[1]}: a footnote that leaves the registry but stays in the tree never gets its label from docutils' Footnotes transform and is not collected")
+            else:
+                rep.error("C03.R4", f"{site} {key}: write to a docutils footnote registry not understood ({verdict[1]})")
+
+
 
 @rule("C03.R4")
 def r4_footnote_shape(corpus: Corpus, rep: Report, tier: str):
-    rep.rule("C03.R4", "manual footnote: label is the first child; auto footnote: note_autofootnote instead (docutils inserts the label); never both; registry calls dominated by the duplicate test")
+    rep.rule("C03.R4", "manual footnote: label is the first child; auto footnote: note_autofootnote instead (docutils inserts the label); never both; registry calls dominated by a not-a-duplicate test covering the registry used; footnote registries are only reordered, never shrunk")
     n = 0
     for fi in corpus.all_functions():
         if fi.is_lambda:
@@ -1036,16 +1197,34 @@ def r4_footnote_shape(corpus: Corpus, rep: Report, tier: str):
             regs = [x for x in fi.local_nodes() if isinstance(x, ast.Call) and isinstance(x.func, ast.Attribute) and x.func.attr.startswith("note_") and any(isinstance(a, ast.Name) and a.id == var for a in x.args)]
             if not regs or not (autos and manuals):
                 rep.error("C03.R4", f"{site}: expected note_footnote / note_autofootnote / note_explicit_target calls on `{var}`")
+            reg_of = {"note_footnote": "footnotes", "note_autofootnote": "autofootnotes", "note_symbol_footnote": "symbol_footnotes"}
+            all_needed = {reg_of[x.func.attr] for x in regs if x.func.attr in reg_of}
             for x in regs:
-                facts_ = cfg.guards(cfg.stmt_of(x))
-                dup = [t for t, pol in facts_ if not pol and isinstance(t, ast.Compare) and isinstance(t.ops[0], ast.In) and unparse(t.comparators[0]).endswith(".nameids") and unparse(t.left) in names_src]
+                needed = {reg_of[x.func.attr]} if x.func.attr in reg_of else all_needed
                 kk = f"{k0}|not-a-duplicate test dominates `{short(x, 50)}`"
-                if dup:
-                    rep.ok("C03.R4", kk, fi.module.site(x))
+                verdict, why = "none", ""
+                for m_ in corpus.modules.values():
+                    _CORPUS_OF[id(m_)] = corpus
+                for t, pol in list(cfg.guards(cfg.stmt_of(x))) + [(None, False)]:
+                    v, w = _dup_test(t, pol, names_src, needed, fi) if t is not None else _dup_loop(cfg, cfg.stmt_of(x), names_src, needed)
+                    if v == "ok":
+                        verdict, why = v, w
+                        break
+                    if v == "unknown" or (v == "weak" and verdict == "none"):
+                        verdict, why = v, w
+                if verdict == "ok":
+                    rep.ok("C03.R4", kk, fi.module.site(x), why)
+                elif verdict == "unknown":
+                    rep.error("C03.R4", f"{fi.module.site(x)} {kk}: a dominating test on the footnote's name exists but is not understood ({why})")
                 else:
-                    rep.violation("C03.R4", kk, fi.module.site(x), "the footnote is registered without a dominating `name not in document.nameids` test: a duplicate definition makes docutils move the name to dupnames and the ids/labels of both footnotes become inconsistent")
+                    rep.violation(
+                        "C03.R4", kk, fi.module.site(x),
+                        ("the footnote is registered without a dominating not-a-duplicate test on its name" if verdict == "none" else why)
+                        + ": a second definition with the same label is registered too, docutils moves the name to dupnames and the ids/labels of both footnotes become inconsistent",
+                    )
     if n < 1:
         rep.error("C03.R4", "no footnote construction found")
+    _registry_writes(corpus, rep)
     if tier == "thorough":
         m = corpus.sibling("docutils/transforms/references.py")
         rep.saw_sibling(m.rel)
@@ -1303,6 +1482,21 @@ def _node_bool_always_true(corpus: Corpus) -> bool:
     return corpus.cache("c03-node-bool", compute)
 
 
+def _nameids_may_be_none(corpus: Corpus) -> bool:
+    """docutils: some method of ``document`` executes ``self.nameids[...] = None``."""
+
+    def compute():
+        m = corpus.sibling("docutils/nodes.py")
+        for n in ast.walk(m.tree):
+            if isinstance(n, ast.Assign) and isinstance(n.value, ast.Constant) and n.value.value is None:
+                for t in n.targets:
+                    if isinstance(t, ast.Subscript) and isinstance(t.value, ast.Attribute) and t.value.attr == "nameids":
+                        return True
+        return False
+
+    return corpus.cache("c03-nameids-none", compute)
+
+
 def _is_node_type(r: str | None) -> bool:
     return bool(r) and (r.startswith("docutils.nodes.") or r.startswith("sphinx.addnodes.") or r == "None")
 
@@ -1468,7 +1662,9 @@ class _Refid:
             if isinstance(e.value, ast.Subscript) and isinstance(e.value.slice, ast.Constant) and e.value.slice.value in ("names", "dupnames"):
                 return "name", f"`{txt}` is a name, not an id"
             if isinstance(e.value, ast.Attribute) and e.value.attr == "nameids" and _doc_rooted(e.value):
-                return "reg", f"`{txt}`: name -> id registry of the document"
+                return self._nameids_value(txt, fi, at)
+        if isinstance(e, ast.Call) and isinstance(e.func, ast.Attribute) and e.func.attr == "get" and isinstance(e.func.value, ast.Attribute) and e.func.value.attr == "nameids" and _doc_rooted(e.func.value) and idx is None:
+            return self._nameids_value(unparse(e), fi, at)
         if isinstance(e, ast.Subscript) and isinstance(e.value, ast.Name):
             if idx is None and isinstance(e.slice, ast.Constant) and isinstance(e.slice.value, int) and not isinstance(_single_value(fi, e.value.id), (ast.Dict, type(None))):
                 # `hit[0]` where hit is itself a looked-up tuple
@@ -1487,6 +1683,12 @@ class _Refid:
                 return "no", f"`{e.id}` is not a local with visible bindings"
             res = []
             for st, v, i in bs:
+                if v is None and isinstance(st, ast.For) and isinstance(st.iter, ast.Call) and isinstance(st.iter.func, ast.Attribute) and st.iter.func.attr == "items" and isinstance(st.iter.func.value, ast.Attribute) and st.iter.func.value.attr == "nameids" and _doc_rooted(st.iter.func.value) and not st.iter.args:
+                    if i == 1:
+                        res.append((st, ("optid", f"`{e.id}` iterates the values of document.nameids: an id or None (docutils sets None when a name is defined twice)") if _nameids_may_be_none(self.c) else ("reg", "value of document.nameids")))
+                    else:
+                        res.append((st, ("name", f"`{e.id}` iterates the keys of document.nameids: a name, not an id")))
+                    continue
                 if v is None:
                     return "no", f"`{e.id}` is bound by `{short(st, 40)}`"
                 if isinstance(v, ast.Call) and isinstance(v.func, ast.Attribute) and v.func.attr == "get":
@@ -1498,11 +1700,29 @@ class _Refid:
             for st, (k, why) in res:
                 if k == "no":
                     return k, why
+            for st, (k, why) in res:
+                if k == "optid":
+                    # the id-or-None value is carried by `e.id`: its use must be under a not-None test
+                    cfg = get_cfg(fi)
+                    tested = any(nm == e.id and f in ("notnone", "truthy") for t, pol in cfg.guards(cfg.stmt_of(at)) for nm, f in _truth_facts(t, pol))
+                    if not tested:
+                        return "optid", why
             names = [(st, why) for st, (k, why) in res if k == "name"]
             if names:
                 self._name_sites = getattr(self, "_name_sites", []) + [(fi, st, why) for st, why in names]
             return "reg", "; ".join(sorted({why for _, (_, why) in res}))
         return "no", f"`{short(e, 50)}` is not a registry lookup"
+
+    def _nameids_value(self, txt: str, fi: FunctionInfo, at: ast.AST) -> tuple[str, str]:
+        """A value of document.nameids: docutils stores None there for a name defined twice."""
+        if not _nameids_may_be_none(self.c):
+            return "reg", f"`{txt}`: name -> id registry of the document"
+        cfg = get_cfg(fi)
+        for t, pol in cfg.guards(cfg.stmt_of(at)):
+            if isinstance(t, ast.Compare) and len(t.ops) == 1 and unparse(t.left) == txt and isinstance(t.comparators[0], ast.Constant) and t.comparators[0].value is None:
+                if (isinstance(t.ops[0], ast.IsNot) and pol) or (isinstance(t.ops[0], ast.Is) and not pol):
+                    return "reg", f"`{txt}`: name -> id registry of the document, tested against None"
+        return "optid", f"`{txt}` is an id or None (docutils sets nameids[name] = None when a name is defined twice)"
 
     def lookup(self, e: ast.Subscript, fi: FunctionInfo, at: ast.AST, idx: int | None, depth: int, found_var: str | None = None) -> tuple[str, str]:
         reg = e.value.id
@@ -1528,6 +1748,8 @@ class _Refid:
                     return "no", f"`{short(st, 50)}` does not store a tuple with position {idx}"
                 v = v.elts[idx]
             k, why = self.id_valued(v, fi, st, None, depth + 1)
+            if k == "optid":
+                return "optid", f"`{reg}` is filled by `{short(st, 50)}` without a not-None test: {why}"
             if k == "no":
                 return "no", f"`{reg}` is filled by `{short(st, 50)}` whose id position is not an id ({why})"
         return "reg", f"found lookup in `{reg}`, filled from the document's id registry"
@@ -1535,7 +1757,7 @@ class _Refid:
 
 @rule("C03.R3")
 def r3_refid_provenance(corpus: Corpus, rep: Report, tier: str):
-    rep.rule("C03.R3", "every refid store takes an id from a found registry lookup / set_id, or every path to it has issued the XREF_MISSING warning")
+    rep.rule("C03.R3", "every refid store takes an id from a found registry lookup / set_id (a document.nameids value only after a not-None test), or every path to it has issued the XREF_MISSING warning")
     n = 0
     for fi in corpus.all_functions():
         if fi.is_lambda or fi.module.name.endswith("._docs"):
@@ -1559,6 +1781,9 @@ def r3_refid_provenance(corpus: Corpus, rep: Report, tier: str):
             key = f"{fi.fq}|refid = {short(val, 60)}"
             tr = _Refid(corpus, rep)
             kind, why = tr.id_valued(val, fi, st, None)
+            if kind == "optid":
+                rep.violation("C03.R3", key, site, f"{why} and reaches the refid with no not-None test on the way: a link to an ambiguous name gets refid=None, which is no id in the tree, and no 'target not found' warning is issued")
+                continue
             if kind == "reg":
                 rep.ok("C03.R3", key, site, why)
                 for nfi, nst, nwhy in getattr(tr, "_name_sites", []):
@@ -1694,9 +1919,113 @@ class _Moves:
         return out
 
 
+def _value_attached_in(fi: FunctionInfo, name: str, depth: int = 0) -> ast.AST | None:
+    """An attach event in ``fi`` whose attached value is (a collection containing) local ``name``,
+    following plain local aliases / list building (`x = [name]`, `x = [name] + y`, `[name] if name else []`)."""
+    if depth > 3:
+        return None
+    for node, recv, vals, how in _attach_events(fi):
+        rb = _single_value(fi, recv.id, ignore_aug=True) if isinstance(recv, ast.Name) else None
+        if isinstance(rb, (ast.List, ast.Dict, ast.Set)):
+            # building a plain list: the list itself may be attached later
+            if any(isinstance(y, ast.Name) and y.id == name for v in vals for y in ast.walk(v)):
+                hit = _value_attached_in(fi, recv.id, depth + 1)
+                if hit is not None:
+                    return hit
+            continue
+        for v in vals:
+            if any(isinstance(y, ast.Name) and y.id == name and not _shadowed(y) for y in ast.walk(v)):
+                return node
+    for n in fi.local_nodes():
+        if isinstance(n, ast.Assign) and len(n.targets) == 1 and isinstance(n.targets[0], ast.Name) and n.targets[0].id != name:
+            if any(isinstance(y, ast.Name) and y.id == name for y in ast.walk(n.value)) and not any(isinstance(c, ast.Call) for c in ast.walk(n.value)):
+                hit = _value_attached_in(fi, n.targets[0].id, depth + 1)
+                if hit is not None:
+                    return hit
+    return None
+
+
+def _returned_with(fi: FunctionInfo, name: str) -> ast.Return | None:
+    """A return statement whose value contains local ``name`` (directly or through a list-valued alias)."""
+    aliases = {name}
+    changed = True
+    while changed:
+        changed = False
+        for n in fi.local_nodes():
+            if isinstance(n, ast.Assign) and len(n.targets) == 1 and isinstance(n.targets[0], ast.Name) and n.targets[0].id not in aliases:
+                if any(isinstance(y, ast.Name) and y.id in aliases for y in ast.walk(n.value)) and not any(isinstance(c, ast.Call) for c in ast.walk(n.value)):
+                    aliases.add(n.targets[0].id)
+                    changed = True
+    for n in fi.local_nodes():
+        if isinstance(n, ast.Return) and n.value is not None:
+            # names used only as a condition (`[x] if x else []`) still put x into the result through the body
+            if any(isinstance(y, ast.Name) and y.id in aliases for y in ast.walk(n.value)):
+                return n
+    return None
+
+
+def _attach_and_return(corpus: Corpus, rep: Report) -> None:
+    """create_warning(..., append_to=X) attaches the message node to X *and* returns it: a result obtained
+    that way must not be attached again (directly, or by a caller that attaches the returned collection)."""
+    g = get_callgraph(corpus)
+    n_used = 0
+    for fi in corpus.all_functions():
+        if fi.is_lambda:
+            continue
+        for c in fi.local_nodes():
+            if not (isinstance(c, ast.Call) and _create_warning_call(c)):
+                continue
+            p = parent(c)
+            if isinstance(p, ast.Expr):
+                continue  # result discarded
+            if isinstance(p, ast.Lambda):
+                continue  # warning callback handed to merge_file_level: every call of it discards the value (C14.R5)
+            if isinstance(p, ast.Return) and fi.name == "create_warning":
+                continue  # the forwarding wrapper: its callers are the instances
+            if not (isinstance(p, ast.Assign) and len(p.targets) == 1 and isinstance(p.targets[0], ast.Name)):
+                if isinstance(p, ast.Return):
+                    continue  # a wrapper returning the node; C14.R5 judges such wrappers
+                raise Unsupported(f"result of `{short(c, 50)}` used in `{short(p, 50)}` in {fi.qualname}")
+            n_used += 1
+            var = p.targets[0].id
+            a = kwarg(c, "append_to")
+            attached_by_api = a is not None and not (isinstance(a, ast.Constant) and a.value is None)
+            key = f"{fi.fq}|warning node attached once|{short(c, 60)}"
+            site = fi.module.site(c)
+            rep.saw_function(fi.fq)
+            # where does the node go afterwards?
+            again: list[str] = []
+            hit = _value_attached_in(fi, var)
+            if hit is not None:
+                again.append(f"`{short(hit, 50)}` in {fi.qualname}")
+            ret = _returned_with(fi, var)
+            if ret is not None:
+                for cfi, call in g.callers().get(fi.fq, []):
+                    if cfi.is_lambda:
+                        continue
+                    pc = parent(call)
+                    ev = [e for e in _attach_events(cfi) if any(y is call for v in e[2] for y in ast.walk(v))]
+                    if ev:
+                        again.append(f"`{short(ev[0][0], 50)}` in {cfi.qualname}")
+                    elif isinstance(pc, ast.Assign) and len(pc.targets) == 1 and isinstance(pc.targets[0], ast.Name):
+                        h2 = _value_attached_in(cfi, pc.targets[0].id)
+                        if h2 is not None:
+                            again.append(f"`{short(h2, 50)}` in {cfi.qualname}")
+            if attached_by_api and again:
+                rep.violation("C03.R5", key, site, f"create_warning(append_to={unparse(a)}) already appends the message node and returns the same object, which is then attached again by {again[0]}: the system_message occurs twice in the tree")
+            elif attached_by_api:
+                rep.ok("C03.R5", key, site, "attached by create_warning; the returned node is not attached again")
+            elif len(again) > 1 and hit is not None:
+                rep.violation("C03.R5", key, site, f"the message node is attached by {again[0]} and again by {again[1]}")
+            else:
+                rep.ok("C03.R5", key, site, "no append_to: attached (at most) by the receiver of the returned/collected node" + (f", {again[0]}" if again else ""))
+    if n_used < 1:
+        rep.error("C03.R5", "expected create_warning results that are handed on (html_to_nodes, run_directive)")
+
+
 @rule("C03.R5")
 def r5_single_parent(corpus: Corpus, rep: Report, tier: str):
-    rep.rule("C03.R5", "an existing node is re-attached only after being detached, exactly once; children are moved out of a node at most once per path and the old owner is discarded on every path")
+    rep.rule("C03.R5", "an existing node is re-attached only after being detached, exactly once; children are moved out of a node at most once per path and the old owner is discarded on every path; a node already attached by create_warning(append_to=) is not attached again")
     mv = _Moves(corpus)
     n_inst = 0
     for modname in SURGERY_MODULES:
@@ -1801,6 +2130,7 @@ def r5_single_parent(corpus: Corpus, rep: Report, tier: str):
                     rep.violation("C03.R5", key, fi.module.site(bad), f"after `{short(bad, 60)}` some path leaves `{root}` in the tree: its former children are listed under two parents")
                 else:
                     rep.ok("C03.R5", key, site, "every path after the move replaces/removes the old owner")
+    _attach_and_return(corpus, rep)
     rep.expect_min("C03.R5", 3, "CollectFootnotes re-attach; children moves in ResolveAnchorIds.apply (2) and the Sphinx resolver (9 judged instances on the pinned tree)")
 
 
@@ -1818,6 +2148,13 @@ def _stmt_text(m, st) -> str:
 def _indent(m, st) -> str:
     line = m.lines[st.lineno - 1]
     return line[: len(line) - len(line.lstrip())]
+
+
+def _splice_many(src: str, edits: list[tuple[ast.AST, str]]) -> str:
+    """Apply several node replacements to one source (bottom-up, so offsets stay valid)."""
+    for node, text in sorted(edits, key=lambda e: (e[0].lineno, e[0].col_offset), reverse=True):
+        src = splice(src, node, text)
+    return src
 
 
 def mutants(corpus: Corpus):
@@ -1875,7 +2212,7 @@ def mutants(corpus: Corpus):
     f = base.func("DocutilsRenderer.render_footnote_reference")
     st = find_node(f, lambda n: isinstance(n, ast.AugAssign) and "nodes.label" in unparse(n.value))
     add("c03-footnote-label-dropped", "C03.R4", base, st, "pass", "footnote", canary=True)
-    iff = find_node(f, lambda n: isinstance(n, ast.If) and "nameids" in unparse(n.test))
+    iff = find_node(f, lambda n: isinstance(n, ast.If) and isinstance(n.body[-1], ast.Return) and "names" in unparse(n.test))
     add("c03-footnote-duplicate-return-dropped", "C03.R4", base, iff.body[-1] if iff is not None and isinstance(iff.body[-1], ast.Return) else None, "pass", "not-a-duplicate")
     st2 = find_node(f, lambda n: isinstance(n, ast.Assign) and unparse(n.targets[0]) == "footnote['auto']")
     add("c03-footnote-label-on-auto-branch-too", "C03.R4", base, st2, (_stmt_text(base, st) if st is not None else "pass") + "\n" + (_indent(base, st2) if st2 is not None else "") + (_stmt_text(base, st2) if st2 is not None else ""), "label xor auto")
@@ -1886,15 +2223,67 @@ def mutants(corpus: Corpus):
     f = tf.func("ResolveAnchorIds.apply")
     c = find_node(f, lambda n: isinstance(n, ast.Call) and unparse(n) == "refnode.parent.replace(refnode, pending)")
     add("c03-anchor-owner-kept-after-children-moved", "C03.R5", tf, c, "refnode.parent.append(pending)", "old owner `refnode`")
+    def deep_gen(fn):
+        return find_node(fn, lambda n: isinstance(n, ast.GeneratorExp) and unparse(n.elt).endswith(".deepcopy()") and unparse(n.generators[0].iter).endswith(".children"))
+
     f = refs.func("MystReferenceResolver.resolve_myst_ref_doc")
     c = find_node(f, lambda n: isinstance(n, ast.Call) and unparse(n) == "node.replace_self(ref_node)")
-    add("c03-docref-owner-kept-after-children-moved", "C03.R5", refs, c, "node.parent.append(ref_node)", "old owner `node`")
+    ge = deep_gen(f)
+    if c is not None and ge is not None:
+        out.append(Mutant("c03-docref-owner-kept-after-children-moved", "C03.R5", refs.rel, _splice_many(refs.src, [(ge, "(" + unparse(ge.generators[0].iter) + ")"), (c, "node.parent.append(ref_node)")]), expect="old owner `node`"))
+    else:
+        out.append(("c03-docref-owner-kept-after-children-moved", "deepcopy generator / replace_self not found"))
+    # revert of 49823c4: the link text is moved (not copied) into both candidate nodes
+    g1, g2 = deep_gen(refs.func("MystReferenceResolver._resolve_ref_nested")), deep_gen(refs.func("MystReferenceResolver._resolve_doc_nested"))
+    if g1 is not None and g2 is not None:
+        out.append(Mutant("c03-revert-49823c4-link-children-moved-twice", "C03.R5", refs.rel, _splice_many(refs.src, [(g1, "(" + unparse(g1.generators[0].iter) + ")"), (g2, "(" + unparse(g2.generators[0].iter) + ")")]), expect="moved at most once"))
+    else:
+        out.append(("c03-revert-49823c4-link-children-moved-twice", "deepcopy generators not found"))
+    # attach-and-return: the warning node is appended by create_warning and again by the caller
+    h2n = corpus.mod("mdit_to_docutils.html_to_nodes")
+    f = h2n.func("html_to_nodes")
+    c = find_node(f, lambda n: isinstance(n, ast.Call) and _create_warning_call(n) and kwarg(n, "append_to") is None)
+    add("c03-html-warning-attached-twice", "C03.R5", h2n, c.keywords[-1].value if c is not None and c.keywords else None, (unparse(c.keywords[-1].value) + ", append_to=renderer.current_node") if c is not None and c.keywords else "", "warning node attached once")
+    f = base.func("DocutilsRenderer.run_directive")
+    c = find_node(f, lambda n: isinstance(n, ast.Call) and _create_warning_call(n) and kwarg(n, "append_to") is None and isinstance(parent(n), ast.Assign))
+    add("c03-unknown-directive-warning-attached-twice", "C03.R5", base, c.keywords[-1].value if c is not None and c.keywords else None, (unparse(c.keywords[-1].value) + ", append_to=self.current_node") if c is not None and c.keywords else "", "warning node attached once")
+    # ---- R3: document.nameids values may be None
+    f = tf.func("ResolveAnchorIds.apply")
+    tests = [n for n in f.local_nodes() if isinstance(n, ast.If) and unparse(n.test) == "labelid is None"]
+    if tests:
+        out.append(Mutant("c03-nameids-none-guard-dropped", "C03.R3", tf.rel, _splice_many(tf.src, [(t.test, "False") for t in tests]), expect="refid = ref_id"))
+    else:
+        out.append(("c03-nameids-none-guard-dropped", "`labelid is None` test not found"))
+    st = find_node(f, lambda n: isinstance(n, ast.Expr) and isinstance(n.value, ast.Call) and unparse(n.value.func) == "create_warning" and "XREF_MISSING" in unparse(n.value))
+    if st is not None:
+        ind = _indent(tf, st)
+        add("c03-nameids-fallback-without-none-guard", "C03.R3", tf, st, "if target in self.document.nameids:\n" + ind + "    refnode[\"refid\"] = self.document.nameids[target]\n" + ind + "    continue\n" + ind + _stmt_text(tf, st), "nameids[target]")
+    else:
+        out.append(("c03-nameids-fallback-without-none-guard", "missing-target warning not found"))
+    # ---- R4: footnote registries
+    f = base.func("DocutilsRenderer.render_footnote_reference")
+    it = find_node(f, lambda n: isinstance(n, ast.BinOp) and isinstance(n.op, ast.Add) and unparse(n.right).endswith(".autofootnotes") and unparse(n.left).endswith(".footnotes"))
+    add("c03-duplicate-test-misses-autofootnotes", "C03.R4", base, it, unparse(it.left) if it is not None else "", "not-a-duplicate")
+    f = tf.func("SortFootnotes.apply")
+    st = find_node(f, lambda n: isinstance(n, ast.Expr) and isinstance(n.value, ast.Call) and unparse(n.value.func).endswith(".autofootnotes.sort"))
+    if st is not None:
+        reg = unparse(st.value.func.value)
+        kw = ", ".join(f"{k.arg}={unparse(k.value)}" for k in st.value.keywords)
+        add("c03-sort-drops-nameless-footnotes", "C03.R4", tf, st, f"{reg}[:] = [n for n in sorted({reg}, {kw}) if n['names']]", "registry keeps every member")
+        add("c03-sort-keeps-only-referenced-footnotes", "C03.R4", tf, st, f"{reg} = sorted({reg}, {kw})[: len(ref_order)]", "registry keeps every member")
+    else:
+        out.append(("c03-sort-drops-nameless-footnotes", "autofootnotes.sort not found"))
     # ---- R6
     f = base.func("DocutilsRenderer.update_section_level_state")
     kw = find_node(f, lambda n: isinstance(n, ast.keyword) and n.arg == "append_to" and unparse(n.value) == "self.current_node")
     add("c03-level-warning-appended-to-section", "C03.R6", base, kw.value if kw is not None else None, "section", "update_section_level_state")
     f = base.func("DocutilsRenderer.render_heading")
     st = find_node(f, lambda n: isinstance(n, ast.Expr) and unparse(n.value) == "new_section.append(title_node)")
+    cp = find_node(f, lambda n: isinstance(n, ast.Expr) and isinstance(n.value, ast.Call) and unparse(n.value.func) == "self.copy_attributes" and len(n.value.args) > 1 and unparse(n.value.args[1]) == "new_section")
+    if st is not None and cp is not None and cp.lineno > st.lineno:
+        out.append(Mutant("c03-revert-0f7e2b3-attributes-copied-before-title", "C03.R6", base.rel, _splice_many(base.src, [(cp, "pass"), (st, _stmt_text(base, cp) + "\n" + _indent(base, st) + _stmt_text(base, st))]), expect="copy_attributes"))
+    else:
+        out.append(("c03-revert-0f7e2b3-attributes-copied-before-title", "copy_attributes after the title append not found"))
     if st is not None:
         add("c03-implicit-target-noted-before-title", "C03.R6", base, st, "self.document.note_implicit_target(new_section, new_section)\n" + _indent(base, st) + _stmt_text(base, st), "note_implicit_target")
     else:
